@@ -1,4 +1,4 @@
-import TriompheModel.Model.Ops
+import TriompheModel.Proofs.HistVal
 /-!
 # C07 — panicking or lying callbacks cause no double drop and no uninitialised read
 
@@ -38,6 +38,34 @@ theorem C07_cb_panic_after_clone (api : CbApi) (src k : Nat) (rest : List CbAct)
     (hk : lookup s k = none) (m : Mem) (c : HV) (hc : cloneHandle s.mem t = some (m, c)) (hapi : api ≠ .thinWithArcMut) :
     runCb api src (.cloneTo k :: .panic :: rest) s t acc = (s.put m k c, panicked "scripted" (acc ++ "cloned;")) := by
   simp [runCb, hk, hc, hapi]
+
+/-- **every value is destroyed at most once, whatever panics or lies**: along any history — panics
+injected at any `next()` call, any `Clone`, any callback action; lengths and hints changing between
+calls — the destroyed identities are pairwise distinct -/
+theorem C07_destroyed_at_most_once (ops : List Op) (h : FreshIds ops) : (dropIds (run ops).mem.log).Nodup :=
+  drop_at_most_once ops h
+
+/-- **every surviving handle is valid with an accurate count**: after any such history every handle
+in the table points to a live, non-abandoned block whose count word is the number of owners -/
+theorem C07_survivors_valid (ops : List Op) (i : Nat) (h : HV) (hl : lookup (run ops) i = some h) :
+    loadCount (run ops).mem h.blk = owners (run ops) h.blk ∧
+    ∃ k, (run ops).mem.blocks[h.blk]? = some k ∧ k.live = true ∧ k.leaked = false :=
+  count_eq_owners (inv_run ops) hl
+
+/-- **no uninitialised slot is destroyed**: no history ever emits a `dropUninit` event through a
+handle whose view is initialised … stated on the release primitive: through an initialised view of
+a fully written block the destructor events are exactly the stored identities -/
+theorem C07_release_drops_exactly_the_stored (m : Mem) (b : Nat) (t : Ty) (len : Nat) (k : Block)
+    (hk : m.blocks[b]? = some k) (hc : k.count = 1) (ht : t.elemsInit = true) (hlen : k.elems.length ≤ len) :
+    dropIds (decr m b t len).log = dropIds m.log ++ k.ids :=
+  decr_last_drops_exactly m b t len k hk hc ht hlen
+
+/-- the only tolerated loss: what an abandoned half-built block stores is never destroyed (and
+never referred to) -/
+theorem C07_abandoned_block_untouched (ops : List Op) (h : FreshIds ops) (b : Nat) (k : Block)
+    (hk : (run ops).mem.blocks[b]? = some k) (hlk : k.leaked = true) (hlv : k.live = true) :
+    owners (run ops) b = 0 ∧ ∀ i, i ∈ k.ids → i ∉ dropIds (run ops).mem.log :=
+  ⟨leaked_unowned (inv_run ops) hk hlk, live_values_not_destroyed ops h b k hk hlv⟩
 
 end C07
 end M1
